@@ -39,7 +39,7 @@ func init() { Register(c12{}) }
 func (c12) ID() string { return "C12" }
 func (c12) NRuns(tier string) int {
 	if tier == "thorough" {
-		return 150000
+		return 400000
 	}
 	return 2500
 }
